@@ -62,16 +62,30 @@ def main():
         json.dump({k_: meta[k_] for k_ in ("tests_with_patch", "demo_with_patch", "demo_clean", "confirmed")}, open(cpath, "w"))
         if mode == "confirm":
             return 0
-    # --- 2. the checks against /repo with the patch applied
+    # --- 2. the checks against a scratch copy of /repo's working tree with the patch applied (the checks import cyecca from
+    #        the copy through PYTHONPATH; /repo itself is not touched).  --in-repo: git apply / git checkout in /repo instead.
     det = {}
-    rc, out = sh("git status --porcelain", cwd="/repo")
-    assert out.strip() == "", "/repo not clean: " + out
-    rc, out = sh(f"git apply {patch}", cwd="/repo")
-    assert rc == 0, out
+    in_repo = "--in-repo" in sys.argv
+    import tempfile
+    if in_repo:
+        rc, out = sh("git status --porcelain", cwd="/repo")
+        assert out.strip() == "", "/repo not clean: " + out
+        rc, out = sh(f"git apply {patch}", cwd="/repo")
+        assert rc == 0, out
+        cenv = None
+        scratch = None
+    else:
+        scratch = tempfile.mkdtemp(prefix=f"seedeval_{prop}_{k}_", dir="/tmp")
+        sh(f"rsync -a --exclude .git --exclude __pycache__ /repo/ {scratch}/")
+        rc, out = sh(f"git apply --unsafe-paths --directory={scratch} {patch}", cwd="/")
+        if rc != 0:
+            rc, out = sh(f"patch -p1 < {patch}", cwd=scratch)
+        assert rc == 0, out
+        cenv = dict(os.environ, PYTHONPATH=scratch)
     try:
         for p in [prop] + also:
             t0 = time.time()
-            rc, out = sh(f"./check {p} --no-evidence", cwd=ROOT, timeout=3600)
+            rc, out = sh(f"./check {p} --no-evidence", cwd=ROOT, env=cenv, timeout=3600)
             viol = [l for l in out.splitlines() if l.startswith("VIOLATION")]
             obl = [l.strip() for l in out.splitlines() if l.startswith("  obligation")]
             und = [l for l in out.splitlines() if l.startswith("UNDECIDED") or l.startswith("CHECKER-ERROR")]
@@ -79,7 +93,10 @@ def main():
                       "wall_s": round(time.time() - t0, 1)}
             print(f"   check {p}: rc={rc} violations={len(viol)} (without input: {det[p]['no_input']}) undecided/errors={len(und)}  {obl[0][:160] if obl else ''}")
     finally:
-        sh("git checkout -- .", cwd="/repo")
+        if in_repo:
+            sh("git checkout -- .", cwd="/repo")
+        else:
+            shutil.rmtree(scratch, ignore_errors=True)
     meta["detection"] = det
     meta["detected"] = det[prop]["rc"] == 1
     # --- 3. store
